@@ -14,6 +14,8 @@ CONTENT = {
     "mixedcase": ["a.cmake", "B.CMake"],
     "dots": ["x.y-z.cmake", "n.txt"],
     "nodot": ["a.cmake", "cmake"],
+    "stemorder": ["a.cmake", "a-b.cmake"],      # 'a-b.cmake' < 'a.cmake' but 'a' < 'a-b'
+
 }
 
 
